@@ -608,6 +608,18 @@ type c17xSite struct {
 	lean     string
 }
 
+// a formatted call (a literal format string): what is printed at each argument position, as classified, and the
+// verb this extractor assigned to the position — CJ/Gen/LogFormats.lean lets the Lean model of fmt re-do the assignment
+type c17xFmtRec struct {
+	file   string
+	line   int
+	format string
+	verbs  []string
+	groups [][]string
+}
+
+var c17xFmtRecs []c17xFmtRec
+
 func c17xFiles(root string) ([]string, error) {
 	var files []string
 	for _, d := range c17xDirs {
@@ -834,12 +846,18 @@ func c17xExtract(root string) (sites []c17xSite, assigns []string, skipped []str
 							}
 							args = args[1:]
 						}
+						var groups [][]string
 						for i, a := range args {
 							verb := ""
 							if i < len(verbs) {
 								verb = verbs[i]
 							}
-							la = append(la, f.classify(a, verb, call.Pos(), 0)...)
+							g := f.classify(a, verb, call.Pos(), 0)
+							groups = append(groups, g)
+							la = append(la, g...)
+						}
+						if strings.HasSuffix(fn, "f") && !strings.HasPrefix(format, "?") && format != "" {
+							c17xFmtRecs = append(c17xFmtRecs, c17xFmtRec{rel, fset.Position(call.Pos()).Line, format, verbs, groups})
 						}
 						emit(call, "print", format, la)
 						return true
@@ -878,12 +896,18 @@ func c17xExtract(root string) (sites []c17xSite, assigns []string, skipped []str
 					}
 					args = args[1:]
 				}
+				var groups [][]string
 				for i, a := range args {
 					verb := ""
 					if i < len(verbs) {
 						verb = verbs[i]
 					}
-					la = append(la, f.classify(a, verb, call.Pos(), 0)...)
+					g := f.classify(a, verb, call.Pos(), 0)
+					groups = append(groups, g)
+					la = append(la, g...)
+				}
+				if strings.HasSuffix(sel.Sel.Name, "f") && !strings.HasPrefix(format, "?") {
+					c17xFmtRecs = append(c17xFmtRecs, c17xFmtRec{rel, fset.Position(call.Pos()).Line, format, verbs, groups})
 				}
 				emit(call, level, format, la)
 				return true
@@ -1098,4 +1122,47 @@ func TestVerifC17Extract(t *testing.T) {
 	if err := os.WriteFile(filepath.Join(out, "LogSites.lean"), []byte(b.String()), 0o644); err != nil {
 		t.Fatal(err)
 	}
+	if err := os.WriteFile(filepath.Join(out, "LogFormats.lean"), []byte(c17xLeanFormats(sites)), 0o644); err != nil {
+		t.Fatal(err)
+	}
+	c17sWrite(t, root)
+}
+
+// LogFormats.lean: every formatted logger call with a literal format — the format as bytes (the Lean model of
+// fmt parses them), the verb this extractor assigned to each argument position (regular expression c17xVerb), the
+// classification of what stands at each position, and the index of the call in logSites
+func c17xLeanFormats(sites []c17xSite) string {
+	var b strings.Builder
+	b.WriteString("import CJ.Model.Fmt\n")
+	b.WriteString("/-! GENERATED on every run by go/harness/C17/zz_verif_c17_extract_test.go from the tree under check: every logger call\nwith a literal format string — its bytes, the verb the extractor assigned to every argument position, the\nclassification of the argument at every position, its index in `CJ.Gen.logSites`.  Do not edit. -/\n")
+	b.WriteString("namespace CJ.Gen\nopen CJ.LogTaint CJ.Fmt\n\ndef siteFormats : List FmtSite := [\n")
+	first := true
+	for _, r := range c17xFmtRecs {
+		idx := -1
+		for i, s := range sites {
+			if s.file == r.file && s.line == r.line && strings.Contains(s.lean, "format := "+c17xLeanStr(r.format)+",") {
+				idx = i
+			}
+		}
+		if idx < 0 {
+			continue
+		}
+		if !first {
+			b.WriteString(",\n")
+		}
+		first = false
+		var bs, vs, gs []string
+		for _, c := range []byte(r.format) {
+			bs = append(bs, strconv.Itoa(int(c)))
+		}
+		for _, v := range r.verbs {
+			vs = append(vs, strconv.Itoa(int(v[0])))
+		}
+		for _, g := range r.groups {
+			gs = append(gs, "["+strings.Join(g, ", ")+"]")
+		}
+		fmt.Fprintf(&b, "  { idx := %d, line := %d, format := [%s], verbs := [%s],\n    groups := [%s] }", idx, r.line, strings.Join(bs, ", "), strings.Join(vs, ", "), strings.Join(gs, ", "))
+	}
+	b.WriteString("\n]\n\nend CJ.Gen\n")
+	return b.String()
 }
